@@ -255,10 +255,91 @@ impl Prog {
                 Self::decode_loop_pair(t, &atoms, cfg, &mut ins);
                 continue;
             }
+            // (emptiness properties) now and then: a term that is empty — or universal — as a language
+            // without being the syntactic constant, then used as an operand like any other slot
+            if cfg.empties && n >= 1 && n + 5 <= cfg.max_ins && t.bool_p(56) {
+                Self::decode_semantically_empty(t, &atoms, &mut ins);
+                continue;
+            }
             let i = Self::decode_ins(t, &atoms, cfg, big, n);
             ins.push(i);
         }
         Prog { atoms, ins }
+    }
+
+    /// Appends 2-5 instructions whose last one denotes the empty language (or, complemented, every
+    /// string) for a semantic reason: x minus a superset of x, two different words intersected, a word
+    /// intersected with a language of other lengths, "not epsilon and not non-empty", a concatenation
+    /// or positive loop over such a term. The last slot pushed is the interesting one.
+    pub fn decode_semantically_empty(t: &mut Tape, atoms: &Atoms, ins: &mut Vec<Ins>) {
+        let n0 = ins.len();
+        let x = pick_slot(t, n0);
+        let push = |ins: &mut Vec<Ins>, i: Ins| -> usize {
+            ins.push(i);
+            ins.len() - 1
+        };
+        let e = match t.weighted(&[3, 3, 2, 2, 2]) {
+            0 => {
+                // x & ~(x | y)
+                let y = pick_slot(t, n0);
+                let u = push(ins, Ins::Union(x, y));
+                let c = push(ins, Ins::Complement(u));
+                push(ins, Ins::Inter(x, c))
+            }
+            1 => {
+                // two different words
+                let len = 1 + t.choose(3);
+                let w1: Vec<u32> = (0..len).map(|_| atoms.pick_landmark(t)).collect();
+                let mut w2 = w1.clone();
+                let k = t.choose(len);
+                // (program characters are landmarks: with a single landmark the second word is longer instead)
+                match atoms.landmarks.iter().find(|&&l| l != w1[k]) {
+                    Some(&l) => w2[k] = l,
+                    None => w2.push(w1[k]),
+                }
+                let a = push(ins, Ins::Str(w1));
+                let b = push(ins, Ins::Str(w2));
+                push(ins, Ins::Inter(a, b))
+            }
+            2 => {
+                // Sigma^k & Sigma^[k+1, k+2]
+                let k = t.choose(3) as u32;
+                let all = push(ins, Ins::AllChars);
+                let a = push(ins, Ins::Exp(all, k));
+                let b = push(ins, Ins::SmtLoop(all, k + 1, k + 2));
+                push(ins, Ins::Inter(a, b))
+            }
+            3 => {
+                // ~(eps | Sigma+)
+                let eps = push(ins, Ins::Epsilon);
+                let sp = push(ins, Ins::SigmaPlus);
+                let u = push(ins, Ins::Union(eps, sp));
+                push(ins, Ins::Complement(u))
+            }
+            _ => {
+                // x \ (x | y), by diff
+                let y = pick_slot(t, n0);
+                let u = push(ins, Ins::Union(y, x));
+                push(ins, Ins::Diff(x, u))
+            }
+        };
+        // often wrapped: the complement (universal), a concatenation with x, a positive loop
+        match t.weighted(&[4, 3, 2, 2]) {
+            0 => {}
+            1 => {
+                push(ins, Ins::Complement(e));
+            }
+            2 => {
+                if t.flag() {
+                    push(ins, Ins::Concat(x, e));
+                } else {
+                    push(ins, Ins::Concat(e, x));
+                }
+            }
+            _ => {
+                push(ins, Ins::Plus(e));
+            }
+        }
     }
 
     /// body^[r1] and body^[r2] (same body term, different ranges, finite or unbounded) combined by
